@@ -47,6 +47,11 @@ class OpsMixin:
             raise ValueError(f"unknown op {op}")
         return fn(step, issuer)
 
+    def op_seq(self, step, issuer):
+        """Several operations back to back inside one handle (no yield in between)."""
+        for sub in step["steps"]:
+            self.do_op(sub, issuer)
+
     def issuer_task(self, issuer):
         if issuer[0] in ("worker", "cb"):
             return issuer[1]
@@ -97,6 +102,8 @@ class OpsMixin:
                 return None
             name = pr.dead_groups[g[1] % len(pr.dead_groups)]
             return name
+        if g[0] == "reuse_last":
+            return pr.dead_groups[-1] if pr.dead_groups else None
         return None
 
     def _spawn(self, pr, req, method, call, gname, nc, func_kind):
